@@ -136,7 +136,7 @@ def mutate(rng, l):
 def cases(rng, tier):
     yield from boundary_cases()
     yield from exhaustive_cases(tier)
-    n = 100 if tier == "thorough" else 14
+    n = 100 if tier == "thorough" else 10
     base = []
     for store in H.STORES:
         for i in range(n):
